@@ -480,16 +480,16 @@ func genBytesField(t *rapid.T, label string) []byte {
 var chainIDs = []string{"", "c", "test-chain", "évnode-链-\U0001F680", "a\x00b", " ", "chain with spaces and \"quotes\"\n"}
 
 func genChainID(t *rapid.T, label string) []byte {
-	switch rapid.IntRange(0, 11).Draw(t, label+"?") {
+	switch rapid.IntRange(0, 19).Draw(t, label+"?") {
 	case 0:
 		return nil
-	case 1:
-		// invalid UTF-8: not encodable as a proto3 string; must fail cleanly
-		return []byte(rapid.SampledFrom([]string{"\xff", "ok\xc3", "\xed\xa0\x80"}).Draw(t, label))
-	case 2:
+	case 1, 2:
 		return []byte(rapid.StringN(0, 40, 200).Draw(t, label))
 	case 3:
 		return bytes.Repeat([]byte("long-"), 200)
+	case 9:
+		// invalid UTF-8: not encodable as a proto3 string; must fail cleanly
+		return []byte(rapid.SampledFrom([]string{"\xff", "ok\xc3", "\xed\xa0\x80"}).Draw(t, label))
 	default:
 		return []byte(rapid.SampledFrom(chainIDs).Draw(t, label))
 	}
